@@ -498,6 +498,18 @@ def _namefile_payload(c, name, site, payload, where):
         for x in fl:
             if x[0] == "byte" and x[2] is None:
                 srcs.add(x[1])
+    # whether position i carries a character or padding depends on the length of the name only: a test on the character itself replaces
+    # characters of the name by padding
+    for conds_, fl in paths(rep[3]):
+        for ctext, truth in conds_:
+            if lv is not None and re.search(r"\[%s\]" % re.escape(lv), ctext) and re.search(r"\.(isalnum|isalpha|isdigit|isupper|islower|isprintable|isascii|isspace)\(\)| in | not in |[<>]=? *'", ctext):
+                c.finding(site + ":name-filter", "characters of the name are written only if %s" % ctext[:60],
+                          "%s: position i of the name field holds name[i] only when `%s`; other characters of the name are replaced by padding, so the name on tape differs from "
+                          "the name given" % (name, ctext[:80]), where)
+                break
+        else:
+            continue
+        break
     goodsrc = lv is not None and all(re.fullmatch(r"ord\(\$1\.name\[%s\]\)" % re.escape(lv), t) for t in srcs) and srcs
     if goodsrc:
         c.ok(site + ":name-source", "name byte i = name[i] (padded)", where)
@@ -602,6 +614,9 @@ def cas4(ctx, c):
             return ("raw", it[1])
         if it[0] == "ret":
             return None
+        if it[0] in ("other", "let") and len(it) > 2 and isinstance(it[-1], ast.Assign) and isinstance(it[-1].targets[0], ast.Name) and not any(
+                isinstance(x, ast.Call) and isinstance(x.func, ast.Attribute) and x.func.attr in ("append", "extend", "insert", "pop", "remove", "clear") for x in ast.walk(it[-1])):
+            return None     # a local computed from reads only: no bytes written
         return ("other", it[0])
     npaths = 0
     for conds, flat in paths(items["add_file"]):
@@ -736,6 +751,8 @@ def writer_layout(ctx):
         frame, accs, tail, closed = _frame(flat)
         if not closed:
             continue
+        if any(x[0] == "other" and "self.buffer" in x[1] for x in _walk_items(flat)):
+            return None     # bytes are written through an idiom the extractor does not model: offsets unknown
         off = 0
         for it in frame:
             if it[0] == "byte":
@@ -753,6 +770,8 @@ def writer_layout(ctx):
         total = off
         break
     lay["frame_len"] = total
+    if "name" not in lay:
+        return None
     if "gap_flag" not in lay and "data_type" in lay:
         lay["gap_flag"] = lay["data_type"] + 1      # written as a constant: identified by position
     return lay
@@ -996,6 +1015,37 @@ def cas5b(ctx, c):
                                     "tests for %d, skip_to_sequence returns %d" % (k, sentinel),
                                     "%s.%s compares the result of skip_to_sequence with %d, but a failed search returns %d: a tape that ends early is parsed from a bogus "
                                     "position instead of being reported" % (CLS, f.name, k, sentinel), repo.loc(f, n))
+    # the search examines every position: the scan variable advances by one
+    if sk is not None:
+        steps = []
+        for n in ast.walk(sk.node):
+            if isinstance(n, ast.For) and isinstance(n.iter, ast.Call) and U(n.iter.func) == "range" and len(n.iter.args) == 3:
+                steps.append((try_fold(n.iter.args[2], ctx.env), n))
+            if isinstance(n, ast.While):
+                for a_ in ast.walk(n):
+                    if isinstance(a_, ast.AugAssign) and isinstance(a_.op, ast.Add):
+                        vals = [a_.value.body, a_.value.orelse] if isinstance(a_.value, ast.IfExp) else [a_.value]
+                        for v_ in vals:
+                            steps.append((try_fold(v_, ctx.env), a_))
+        badstep = [(k, n) for k, n in steps if isinstance(k, int) and k != 1]
+        if badstep:
+            c.finding("skip_to_sequence:step", "the scan advances by %d" % badstep[0][0],
+                      "skip_to_sequence moves its scan position by %d (`%s`): start positions in between are never compared, so a sync sequence at an odd distance from the start of the "
+                      "scan is missed" % (badstep[0][0], U(badstep[0][1])[:60]), repo.loc(sk, badstep[0][1]))
+        else:
+            c.ok("skip_to_sequence:step", "every position is compared", repo.loc(sk, sk.node))
+    # every block is located by its own sync search: a tape may carry a gap and a leader between any two blocks
+    rbk = C.methods.get("read_blocks")
+    if rbk is not None:
+        loops = [n for n in ast.walk(rbk.node) if isinstance(n, (ast.While, ast.For))]
+        calls_in = [x for lp in loops for x in ast.walk(lp) if isinstance(x, ast.Call) and U(x.func) == "self.skip_to_sequence"]
+        calls_all = [x for x in ast.walk(rbk.node) if isinstance(x, ast.Call) and U(x.func) == "self.skip_to_sequence"]
+        if loops and calls_all and not calls_in:
+            c.finding("read_blocks:sync", "the sync search is made once, before the block loop",
+                      "read_blocks looks for $55 $3C only before the first block and requires every later block to start where the previous one ended: a tape with a gap or leader "
+                      "between blocks (as real recordings have) cannot be read", repo.loc(rbk, calls_all[0]))
+        elif loops and calls_in:
+            c.ok("read_blocks:sync", "each block is located by its own sync search", repo.loc(rbk, calls_in[0]))
     # the extension given to a file read from tape follows its type: machine language (2) is BIN
     rf = C.methods.get("read_file")
     if rf is not None:
